@@ -903,8 +903,17 @@ func runCase(c reg.Case, out *reg.Out) {
 	}
 	var loc, rem []int
 	ran := false
+	nLT := 0
 	for _, op := range c.Ops {
 		switch op[0] {
+		case "lt":
+			// link tree of one request: input of the composed model (gsm-concur) only
+			if ran || len(op) < 4 {
+				out.Line("bad-op")
+				continue
+			}
+			nLT++
+			out.Line("-")
 		case "put", "remote":
 			var l []int
 			good := !ran
@@ -944,14 +953,36 @@ func runCase(c reg.Case, out *reg.Out) {
 				continue
 			}
 			ran = true
-			judgeCase(out, w, qs, loc, rem, p)
+			judgeCase(out, w, qs, loc, rem, p, nLT > 0)
 		default:
 			out.Line("bad-op")
 		}
 	}
 }
 
-func judgeCase(out *reg.Out, w *tn.World, qs []*tn.Query, loc, rem []int, p Params) {
+// comparable: the case profile in which the composed model GS.Concurrent predicts the result whatever the
+// schedule (GS.C20.shared_store_result_reference): every request with a dedup key of its own over the shared
+// default store, all issued at once over the initial store, requestor store ⊆ responder store, no other
+// extension, no requestor-side failure, one requestor.
+func comparable(p Params, loc, rem []int) bool {
+	if p.Dedup != "distinct" || p.Keys != nil {
+		return false
+	}
+	for i := range p.Q {
+		if len(p.Ign[i]) > 0 || p.Skip[i] != 0 || p.Cancel[i] != 0 || p.Peers[i] != 0 || p.Start[i] != 0 {
+			return false
+		}
+	}
+	remS := tn.SetOf(rem)
+	for _, b := range loc {
+		if !remS[b] {
+			return false
+		}
+	}
+	return true
+}
+
+func judgeCase(out *reg.Out, w *tn.World, qs []*tn.Query, loc, rem []int, p Params, haveLT bool) {
 	n := len(qs)
 	all := make([]int, n)
 	for i := range all {
@@ -1039,7 +1070,22 @@ func judgeCase(out *reg.Out, w *tn.World, qs []*tn.Query, loc, rem []int, p Para
 		for i := 0; i < n; i++ {
 			parts = append(parts, fmt.Sprintf("r%d nodes=%d/%d miss=%d/%d", i, len(conc.res[i].Nodes), len(solo[i].res[0].Nodes), len(conc.res[i].Missing), len(solo[i].res[0].Missing)))
 		}
-		out.Line("%s store=%s solo-store=%s steps=%d", strings.Join(parts, " "), tn.FmtInts(conc.store), tn.FmtInts(soloStore), conc.steps)
+		fmt.Fprintf(out.W, "#summary %s store=%s solo-store=%s steps=%d\n", strings.Join(parts, " "), tn.FmtInts(conc.store), tn.FmtInts(soloStore), conc.steps)
+		// the line compared with the composed model (gsm-concur)
+		if !haveLT || !comparable(p, loc, rem) {
+			out.Line("skip")
+			return
+		}
+		out.Cov("model-compared")
+		var mp []string
+		for i := 0; i < n; i++ {
+			mp = append(mp, fmt.Sprintf("r%d nodes=%d miss=%d", i, len(conc.res[i].Nodes), len(conc.res[i].Missing)))
+		}
+		st := tn.FmtInts(conc.store)
+		if st == "" {
+			st = "-"
+		}
+		out.Line("%s store=%s", strings.Join(mp, " "), st)
 	}
 	// ---- the solo runs: a failure here is never a known finding of C20 (impossible on the unchanged
 	// tree outside C02's input classes)
@@ -1216,6 +1262,27 @@ func emit(wr *bufio.Writer, id string, p Params, loc, rem []int) {
 			ss[i] = strconv.Itoa(x)
 		}
 		fmt.Fprintln(wr, "put", strings.Join(ss, " "))
+	}
+	if comparable(p, loc, rem) {
+		w := worldOf(p)
+		var lines []string
+		for i, q := range p.Q {
+			sel, _ := tn.SelectorByName(q.Sel)
+			qq, err := w.NewQuery(q.Root, q.Sel, sel)
+			if err != nil {
+				lines = nil
+				break
+			}
+			l, err := qq.LTLine()
+			if err != nil {
+				lines = nil
+				break
+			}
+			lines = append(lines, fmt.Sprintf("lt %d %s", i, l))
+		}
+		for _, l := range lines {
+			fmt.Fprintln(wr, l)
+		}
 	}
 	fmt.Fprintln(wr, "run")
 }
